@@ -1,5 +1,5 @@
 from reactivestreams.subscriber import Subscriber
-from rsocket.frame import ErrorFrame, PayloadFrame, Frame, error_frame_to_exception
+from rsocket.frame import ErrorFrame, PayloadFrame, Frame, error_frame_to_exception, MAX_REQUEST_N
 from rsocket.frame_builders import to_request_stream_frame
 from rsocket.handlers.interfaces import Requester
 from rsocket.helpers import payload_from_frame, DefaultPublisherSubscription
@@ -13,12 +13,18 @@ class RequestStreamRequester(StreamHandler, DefaultPublisherSubscription, Reques
         super().__init__(socket)
         self.payload = payload
         self._terminated = False
+        self._requested = False
 
     def setup(self):
         pass
 
     def subscribe(self, subscriber: Subscriber):
         super().subscribe(subscriber)
+
+        if self._terminated:
+            return  # cancelled from on_subscribe: the stream is never opened
+
+        self._requested = True
         self._send_stream_request(self.payload)
 
     def cancel(self):
@@ -26,11 +32,21 @@ class RequestStreamRequester(StreamHandler, DefaultPublisherSubscription, Reques
             return  # the stream has ended: nothing to cancel, and nothing may be sent on it any more
 
         self._terminated = True
-        self.send_cancel()
+
+        if self._requested:
+            self.send_cancel()  # a stream the peer has never seen is not cancelled, only released
+
         self._finish_stream()
 
     def request(self, n: int):
         if self._terminated:
+            return
+
+        if not self._requested:
+            # asked for from on_subscribe: the request frame, which has not been written yet, carries this credit
+            if n > 0:
+                self.initial_request_n(min(self._initial_request_n + n, MAX_REQUEST_N))
+
             return
 
         self.send_request_n(n)
